@@ -113,7 +113,43 @@ func TestC15_Determinism(t *testing.T) {
 		cfg := gen.ExprCfg{MaxDepth: 2, MaxSteps: 4, Funcs: true, Let: true, Arith: true, Compare: true}
 		g := &gen.G{T: t, Root: doc, Cfg: cfg}
 		var e ast.Expr
-		switch rapid.IntRange(0, 4).Draw(t, "kind") {
+		switch rapid.IntRange(0, 5).Draw(t, "kind") {
+		case 5:
+			// comparison of two objects (or arrays of objects) that share some
+			// members by reference and differ, or not, in others: the member
+			// loop of the comparison runs in map order
+			shared := ast.Expr(ast.Cur())
+			if oc := objectChain(t, doc); oc != nil && rapid.Bool().Draw(t, "sharedobj") {
+				shared = oc
+			}
+			mk := func(label string) ast.Expr {
+				keys := []string{"a", "b", "c", "d"}
+				items := make([]ast.Expr, len(keys))
+				for i := range items {
+					switch rapid.IntRange(0, 3).Draw(t, label+"-member") {
+					case 0, 1:
+						items[i] = shared
+					case 2:
+						items[i] = ast.Lit(jv.VInt(int64(i)))
+					default:
+						items[i] = g.Chain(doc, 1)
+					}
+				}
+				return &ast.Chain{Head: ast.Head{Kind: ast.HMultiHash, Keys: keys, Items: items}}
+			}
+			l, r := mk("left"), mk("right")
+			switch rapid.IntRange(0, 4).Draw(t, "cmpform") {
+			case 0:
+				e = ast.Bin("==", l, r)
+			case 1:
+				e = ast.Bin("!=", l, r)
+			case 2:
+				e = ast.Call("contains", ast.A(&ast.Chain{Head: ast.Head{Kind: ast.HMultiList, Items: []ast.Expr{l, ast.Lit(jv.VNull())}}}), ast.A(r))
+			case 3:
+				e = ast.Bin("==", ast.Call("merge", ast.A(l), ast.A(ast.Lit(jv.VObj([]jv.Member{{K: "d", V: jv.VInt(3)}})))), r)
+			default:
+				e = ast.Bin("==", &ast.Chain{Head: ast.Head{Kind: ast.HMultiList, Items: []ast.Expr{l, r}}}, &ast.Chain{Head: ast.Head{Kind: ast.HMultiList, Items: []ast.Expr{r, l}}})
+			}
 		case 0: // constructs that iterate Go maps inside the library
 			items := []ast.Expr{g.Expr(doc, 1), g.Expr(doc, 1), g.Expr(doc, 1)}
 			e = &ast.Chain{Head: ast.Head{Kind: ast.HMultiHash, Keys: []string{"a", "b", "c"}, Items: items}}
